@@ -177,21 +177,25 @@ class MemoryPoolList {
   }
 
   Pool* addPool(Allocator* allocator) {
+    if (count_ >= maxPools)  // all slot ids are in use
+      return nullptr;
     if (count_ == capacity_ && !increaseCapacity(allocator))
       return nullptr;
     auto pool = &pools_[count_++];
     SlotCount poolCapacity = ARDUINOJSON_POOL_CAPACITY;
     if (count_ == maxPools)  // last pool is smaller because of NULL_SLOT
-      poolCapacity--;
+      poolCapacity = lastPoolCapacity;
     pool->create(poolCapacity, allocator);
     return pool;
   }
 
   bool increaseCapacity(Allocator* allocator) {
-    if (capacity_ == maxPools)
+    if (capacity_ >= maxPools)
       return false;
     void* newPools;
-    auto newCapacity = PoolCount(capacity_ * 2);
+    // double the capacity, but don't go beyond maxPools (also avoids overflow)
+    auto newCapacity =
+        capacity_ > maxPools / 2 ? maxPools : PoolCount(capacity_ * 2);
 
     if (pools_ == preallocatedPools_) {
       newPools = allocator->allocate(newCapacity * sizeof(Pool));
@@ -216,8 +220,11 @@ class MemoryPoolList {
   SlotId freeList_ = NULL_SLOT;
 
  public:
+  // NULL_SLOT is reserved, so the usable slot ids are 0..NULL_SLOT-1
   static const PoolCount maxPools =
-      PoolCount(NULL_SLOT / ARDUINOJSON_POOL_CAPACITY + 1);
+      PoolCount((NULL_SLOT - 1) / ARDUINOJSON_POOL_CAPACITY + 1);
+  static const SlotCount lastPoolCapacity = SlotCount(
+      NULL_SLOT - SlotId(maxPools - 1) * ARDUINOJSON_POOL_CAPACITY);
 };
 
 ARDUINOJSON_END_PRIVATE_NAMESPACE
